@@ -344,10 +344,17 @@ impl<F: Write + Seek> Directory<F> {
         // refer to their entry by stream ID.
         let left_sibling = self.dir_entry(stream_id).left_sibling;
         let right_sibling = self.dir_entry(stream_id).right_sibling;
-        let replacement_id = if left_sibling == consts::NO_STREAM {
-            right_sibling
-        } else if right_sibling == consts::NO_STREAM {
-            left_sibling
+        let replacement_id = if left_sibling == consts::NO_STREAM
+            || right_sibling == consts::NO_STREAM
+        {
+            // At most one child: it moves up (see `blacken`).
+            let child_id = if left_sibling == consts::NO_STREAM {
+                right_sibling
+            } else {
+                left_sibling
+            };
+            self.blacken(child_id)?;
+            child_id
         } else {
             // Two children: the in-order predecessor (the rightmost entry of
             // the left subtree) takes the place of the removed entry.
@@ -361,9 +368,12 @@ impl<F: Write + Seek> Directory<F> {
                 pred_parent_id = predecessor_id;
                 predecessor_id = next_id;
             }
+            // The predecessor's left subtree moves up into the predecessor's
+            // old position (see `blacken`).
+            let pred_left = self.dir_entry(predecessor_id).left_sibling;
+            self.blacken(pred_left)?;
             if pred_parent_id != stream_id {
-                // Detach the predecessor; its left subtree moves up.
-                let pred_left = self.dir_entry(predecessor_id).left_sibling;
+                // Detach the predecessor from its parent.
                 self.dir_entry_mut(pred_parent_id).right_sibling = pred_left;
                 let mut sector =
                     self.seek_within_dir_entry(pred_parent_id, 72)?;
@@ -371,11 +381,15 @@ impl<F: Write + Seek> Directory<F> {
                 self.dir_entry_mut(predecessor_id).left_sibling =
                     left_sibling;
             }
+            // The predecessor takes over the position of the removed entry,
+            // and with it that position's color.
+            let color = self.dir_entry(stream_id).color;
+            self.dir_entry_mut(predecessor_id).color = color;
             self.dir_entry_mut(predecessor_id).right_sibling = right_sibling;
             self.write_dir_entry(predecessor_id)?;
             predecessor_id
         };
-        // TODO: recolor nodes
+        // TODO: rebalance tree
 
         // Remove the entry.
         debug_assert_eq!(stream_ids.last(), Some(&stream_id));
@@ -400,6 +414,20 @@ impl<F: Write + Seek> Directory<F> {
             sector.write_le_u32(replacement_id)?;
         }
         self.free_dir_entry(stream_id)?;
+        Ok(())
+    }
+
+    /// Colors the given entry (if any) black.  An entry that moves up into
+    /// the position of a removed entry must not stay red, or else it could end
+    /// up as the red child of a red parent, which MS-CFB section 2.6.4
+    /// forbids (and which strict validation rejects).
+    fn blacken(&mut self, stream_id: u32) -> io::Result<()> {
+        if stream_id != consts::NO_STREAM
+            && self.dir_entry(stream_id).color != Color::Black
+        {
+            self.dir_entry_mut(stream_id).color = Color::Black;
+            self.write_dir_entry(stream_id)?;
+        }
         Ok(())
     }
 
